@@ -29,6 +29,11 @@ func ContainsPipe(expr string) bool {
 
 // IsComplexExpr checks if an expression contains operators like ==, ===, !=, <, >, +, -, etc.
 func IsComplexExpr(expr string) bool {
+	// A leading negation makes it an expression, not a variable path
+	if strings.HasPrefix(strings.TrimSpace(expr), "!") {
+		return true
+	}
+
 	// Comparison and logical operators - can appear anywhere
 	operators := []string{"==", "===", "!=", "!==", "<=", ">=", "&&", "||"}
 	for _, op := range operators {
